@@ -1,2 +1,966 @@
-// Package c07 binds the TLA+ specification of property C07 to the Go code.
+// Package c07 binds spec/hosts/HostsLine.tla (property C07) to
+// hostsfile.Record.UnmarshalText / MarshalText.
+//
+// The trusted base is small: the token tables below (every entry is checked
+// against the two reference functions the property names before use), the
+// concretiser that turns a token line into bytes, and the abstractor that cuts
+// a byte line on space / tab / '#' only and asks netip.ParseAddr and
+// netutil.ValidateDomainName what each field is.  Everything else – which
+// fields exist, which outcome follows – is decided by the TLA+ specification.
 package c07
+
+import (
+	"bytes"
+	"encoding/json"
+	"errors"
+	"fmt"
+	"math/rand/v2"
+	"net/netip"
+	"reflect"
+	"runtime"
+	"slices"
+	"strconv"
+	"strings"
+	"sync"
+
+	"github.com/AdguardTeam/golibs/hostsfile"
+	"github.com/AdguardTeam/golibs/netutil"
+
+	"verifharness/internal/vh"
+)
+
+func init() {
+	vh.Register("c07", "replay-lines", replayLines)
+	vh.Register("c07", "record-lines", recordLines)
+	vh.Register("c07", "replay-one", replayOne)
+}
+
+// ------------------------------------------------------------------ tables
+
+// Tables maps a token to its concrete representatives.
+type Tables struct {
+	m map[string][]string
+}
+
+func rep(s string, n int) string { return strings.Repeat(s, n) }
+
+// name253 is a valid 253-byte name of 63-byte labels.
+func nameOfLen(total int) string {
+	// labels of 63 bytes separated by dots, last label alphabetic.
+	var parts []string
+	left := total
+	for left > 0 {
+		l := 63
+		if left < l {
+			l = left
+		}
+		if left-l == 1 { // do not leave a lone dot
+			l--
+		}
+		parts = append(parts, rep("k", l))
+		left -= l
+		if left > 0 {
+			left-- // the dot
+		}
+	}
+	return strings.Join(parts, ".")
+}
+
+var baseTables = map[string][]string{
+	"A4":  {"1.2.3.4", "0.0.0.0", "255.255.255.255", "127.0.0.1", "10.0.0.138", "192.168.1.1"},
+	"A6":  {"1:2:3:4:5:6:7:8", "::1", "::", "2001:db8::1", "::ffff:1.2.3.4", "0:0:0:0:0:0:0:1", "FE80::A", "2001:DB8:0:0:8:800:200C:417A", "64:ff9b::192.0.2.33"},
+	"A6z": {"fe80::1%eth0", "fe80::1%1", "::1%lo0", "1:2:3:4:5:6:7:8%en0", "fe80::2%a.b", "FE80::1%Eth0"},
+	"Abad": {"1.2.3", "1.2.3.256", "1.2.3.04", "::g", "fe80::1%", "[::1]", "1.2.3.4/24", "1.2.3.4:80", "1::2::3", "1.2.3.4.5",
+		"1:2:3:4:5:6:7:8:9", "0x1.2.3.4", "1.2.3.-4", "12345::", "%eth0"},
+	"N": {"localhost", "example.com", "a", "sub.example.org", "_srv.example.com", "-a.example.com", "a_b.c-d.example",
+		"a!b.example", "1a", "xn--e1afmkfd.xn--p1ai", "EXAMPLE.Com", "x.y.z.w.v.u.t", "4.3.2.1.in-addr.arpa", "a--b.net",
+		rep("l", 63) + ".com", "com." + rep("m", 63) + ".a" + rep("t", 62), nameOfLen(253), nameOfLen(252), "host-1", "a*b.tld", "a\\b.tld"},
+	"Nidn": {"пример", "пример.рф", "bücher.example", "例え.jp", "ПРИМЕР.РФ", "a.ü", "ü", "xn--a.ü.example", "host.Ελλάδα"},
+	"Nbad": {"a..b", ".", "example.com.", "a.123", "a.b_", "-", "a-", "123", "_host", "a.-b", "exa%mple", ".com", "a.b.", "1.2.3.4.",
+		rep("l", 64) + ".com", "com." + rep("l", 64), nameOfLen(254), nameOfLen(300), "host_", "a.b!c", "~", "a,b", "\"q\"", "0"},
+	"CMT": {"!c!", "~", "%%", "a,b", "(x)", "=", "_", "c!"},
+	"CR":  {"\r"},
+	"SP":  {" "},
+	"TAB": {"\t"},
+	"HASH": {"#"},
+}
+
+// commentTexts is what CMT stands for after the first '#': anything at all.
+var commentTexts = []string{"", " comment", "1.2.3.4 host.example", "#", "\t# x", "\xff\xfe", "text\rmore", "пример", "::1 localhost # again",
+	"a", " ", "\t", "###", "127.0.0.1\tlocalhost", "\x00", "é"}
+
+var (
+	tablesOnce sync.Once
+	tables     *Tables
+	tablesErr  error
+)
+
+// refAddr / refName are the two references the property names.
+func refAddr(s string) (netip.Addr, error) { return netip.ParseAddr(s) }
+func refName(s string) error               { return netutil.ValidateDomainName(s) }
+
+// GetTables builds the tables, adds reference-classified boundary entries
+// (IDN labels whose A-label is just below / above 63 bytes) and verifies
+// every entry with the reference functions.
+func GetTables() (*Tables, error) {
+	tablesOnce.Do(func() {
+		m := map[string][]string{}
+		for k, v := range baseTables {
+			m[k] = slices.Clone(v)
+		}
+		// IDN boundary: k Cyrillic letters; the references decide the class.
+		for k := 50; k <= 60; k++ {
+			name := rep("я", k) + ".рф"
+			if refName(name) == nil {
+				m["Nidn"] = append(m["Nidn"], name)
+			} else {
+				m["Nbad"] = append(m["Nbad"], name)
+			}
+		}
+		bad := func(tok, s, why string) {
+			if tablesErr == nil {
+				tablesErr = fmt.Errorf("table %s entry %q: %s", tok, s, why)
+			}
+		}
+		for tok, list := range m {
+			if tok == "SP" || tok == "TAB" || tok == "HASH" {
+				continue
+			}
+			for _, s := range list {
+				a, aerr := refAddr(s)
+				nerr := refName(s)
+				if strings.ContainsAny(s, " \t#") || (s == "" && tok != "CMT") {
+					bad(tok, s, "contains a separator or is empty")
+				}
+				switch tok {
+				case "A4":
+					if aerr != nil || !a.Is4() {
+						bad(tok, s, "not an IPv4 address for netip.ParseAddr")
+					}
+				case "A6":
+					if aerr != nil || !a.Is6() || a.Zone() != "" {
+						bad(tok, s, "not a zone-less IPv6 address for netip.ParseAddr")
+					}
+				case "A6z":
+					if aerr != nil || a.Zone() == "" {
+						bad(tok, s, "not a zoned address for netip.ParseAddr")
+					}
+				case "N", "Nidn":
+					if nerr != nil || aerr == nil {
+						bad(tok, s, "not (only) a valid domain name")
+					}
+					if isASCII(s) != (tok == "N") {
+						bad(tok, s, "ASCII / non-ASCII in the wrong table")
+					}
+				case "Abad", "Nbad", "CMT", "CR":
+					if aerr == nil || nerr == nil {
+						bad(tok, s, "accepted by a reference function")
+					}
+				}
+			}
+		}
+		tables = &Tables{m: m}
+	})
+	return tables, tablesErr
+}
+
+func isASCII(s string) bool {
+	for i := 0; i < len(s); i++ {
+		if s[i] >= 0x80 {
+			return false
+		}
+	}
+	return true
+}
+
+// Entries returns the representatives of a token.
+func (t *Tables) Entries(tok string) []string { return t.m[tok] }
+
+// IsSepTok / IsSepByte: the only lexical knowledge of the harness.
+func IsSepTok(t string) bool { return t == "SP" || t == "TAB" }
+func isSepByte(b byte) bool  { return b == ' ' || b == '\t' }
+
+// --------------------------------------------------------------- abstractor
+
+// Abstracted is a byte line cut on space, tab and '#' only.
+type Abstracted struct {
+	Tokens []string // the abstract line for HostsLine.tla
+	Fields []string // concrete text of every field before the comment
+}
+
+// Abstract maps a byte line to tokens: one token per separator byte, one per
+// field (classified by the reference functions: the first field by
+// netip.ParseAddr, the others by netutil.ValidateDomainName), HASH and, when
+// something follows it, CMT.
+func Abstract(line []byte) (a Abstracted) {
+	a.Tokens = []string{}
+	a.Fields = []string{}
+	i := 0
+	for i < len(line) {
+		c := line[i]
+		switch {
+		case c == '#':
+			a.Tokens = append(a.Tokens, "HASH")
+			if i+1 < len(line) {
+				a.Tokens = append(a.Tokens, "CMT")
+			}
+			return a
+		case c == ' ':
+			a.Tokens = append(a.Tokens, "SP")
+			i++
+		case c == '\t':
+			a.Tokens = append(a.Tokens, "TAB")
+			i++
+		default:
+			j := i
+			for j < len(line) && line[j] != '#' && !isSepByte(line[j]) {
+				j++
+			}
+			f := string(line[i:j])
+			a.Tokens = append(a.Tokens, ClassifyField(f, len(a.Fields) == 0))
+			a.Fields = append(a.Fields, f)
+			i = j
+		}
+	}
+	return a
+}
+
+// ClassifyField asks the reference function that applies at the position.
+func ClassifyField(f string, first bool) string {
+	if first {
+		ad, err := refAddr(f)
+		switch {
+		case err != nil:
+			return "Abad"
+		case ad.Zone() != "":
+			return "A6z"
+		case ad.Is4():
+			return "A4"
+		default:
+			return "A6"
+		}
+	}
+	if refName(f) != nil {
+		return "Nbad"
+	}
+	if isASCII(f) {
+		return "N"
+	}
+	return "Nidn"
+}
+
+// Image is what Abstract must return for a concretisation of toks if the
+// abstraction contract of HostsLine.tla holds: a first field that is a single
+// address token or starts with A6z is that address token, a later field made
+// of name tokens only is N / Nidn, every other field is Abad (first) / Nbad
+// (later).
+func Image(toks []string) []string {
+	out := []string{}
+	nf := 0
+	i := 0
+	for i < len(toks) {
+		t := toks[i]
+		switch {
+		case t == "HASH":
+			out = append(out, "HASH")
+			if i+1 < len(toks) {
+				out = append(out, "CMT")
+			}
+			return out
+		case IsSepTok(t):
+			out = append(out, t)
+			i++
+		default:
+			j := i
+			for j < len(toks) && toks[j] != "HASH" && !IsSepTok(toks[j]) {
+				j++
+			}
+			first := nf == 0
+			nf++
+			tok := "Nbad"
+			if first {
+				tok = "Abad"
+				switch {
+				case t == "A6z":
+					tok = t // whatever is glued to a zoned address extends the zone
+				case j-i == 1 && (t == "A4" || t == "A6"):
+					tok = t
+				}
+			} else {
+				all, idn := true, false
+				for _, p := range toks[i:j] {
+					all = all && (p == "N" || p == "Nidn")
+					idn = idn || p == "Nidn"
+				}
+				if all && idn {
+					tok = "Nidn"
+				} else if all {
+					tok = "N"
+				}
+			}
+			out = append(out, tok)
+			i = j
+		}
+	}
+	return out
+}
+
+// -------------------------------------------------------------- concretiser
+
+// Concrete is one concretisation of a token line.
+type Concrete struct {
+	Line  []byte
+	Parts []string // concrete text per token
+}
+
+// FieldText joins the parts of tokens from..to (1-based, inclusive).
+func (c *Concrete) FieldText(from, to int) string {
+	return strings.Join(c.Parts[from-1:to], "")
+}
+
+// Concretise draws representatives for every token until the abstraction of
+// the bytes is the image of the token line (gamma must be a right inverse of
+// alpha).  mode 0 prefers the first (plain) entries, other modes draw
+// uniformly.
+func Concretise(rng *rand.Rand, toks []string, mode int) (*Concrete, error) {
+	tb, err := GetTables()
+	if err != nil {
+		return nil, err
+	}
+	want := Image(toks)
+	for try := 0; try < 200; try++ {
+		c := &Concrete{Parts: make([]string, len(toks))}
+		afterHash := false
+		for i, t := range toks {
+			var s string
+			switch {
+			case afterHash && t == "CMT":
+				s = commentTexts[rng.IntN(len(commentTexts))]
+			default:
+				list := tb.m[t]
+				if list == nil {
+					return nil, fmt.Errorf("unknown token %q", t)
+				}
+				k := rng.IntN(len(list))
+				if mode == 0 || try > 100 {
+					// plain representatives: one of the first two entries
+					k = rng.IntN(min(2, len(list)))
+				}
+				if try > 150 {
+					k = 0
+				}
+				s = list[k]
+			}
+			if t == "HASH" {
+				afterHash = true
+			}
+			c.Parts[i] = s
+		}
+		c.Line = []byte(strings.Join(c.Parts, ""))
+		// (An empty comment text at the very end of the line would make the
+		// CMT token invisible to the abstractor: redrawn like any other
+		// concretisation that leaves the token's class.)
+		if !slices.Equal(Abstract(c.Line).Tokens, want) {
+			continue
+		}
+		return c, nil
+	}
+	return nil, fmt.Errorf("no concretisation of %v satisfies the abstraction contract", toks)
+}
+
+// --------------------------------------------------------------- outcomes
+
+// Outcome is what HostsLine.tla predicts for a line (Parse).
+type Outcome struct {
+	Kind   string   `json:"k"`
+	Fields [][2]int `json:"f"`
+	N      int      `json:"n"`
+}
+
+type lineVec struct {
+	L []string `json:"l"`
+	Outcome
+}
+
+// Expect is the concrete prediction for one concretisation.
+type Expect struct {
+	Kind  string
+	Addr  string   // text of the address field (Accept, NameErr, AddrErr)
+	Names []string // names that must be in rec.Names (Accept, NameErr)
+	Bad   string   // text of the first bad name (NameErr)
+}
+
+// MakeExpect instantiates the abstract outcome on the concrete parts.
+func MakeExpect(o Outcome, c *Concrete) (e Expect, err error) {
+	e.Kind = o.Kind
+	ft := func(k int) string { return c.FieldText(o.Fields[k][0], o.Fields[k][1]) }
+	switch o.Kind {
+	case "Empty", "NoHosts":
+	case "AddrErr":
+		e.Addr = ft(0)
+	case "Accept", "NameErr":
+		e.Addr = ft(0)
+		e.Names = []string{}
+		for k := 1; k <= o.N; k++ {
+			e.Names = append(e.Names, ft(k))
+		}
+		if o.Kind == "NameErr" {
+			e.Bad = ft(o.N + 1)
+		} else if o.N != len(o.Fields)-1 {
+			return e, fmt.Errorf("spec outcome Accept with n=%d of %d fields", o.N, len(o.Fields))
+		}
+	default:
+		return e, fmt.Errorf("unknown outcome kind %q", o.Kind)
+	}
+	return e, nil
+}
+
+// errChainHas reports whether some error in err's Unwrap chain has the type
+// and text of ref.
+func errChainHas(err, ref error) bool {
+	for e := err; e != nil; e = errors.Unwrap(e) {
+		if reflect.TypeOf(e) == reflect.TypeOf(ref) && e.Error() == ref.Error() {
+			return true
+		}
+	}
+	return false
+}
+
+// Observed is the classification of what UnmarshalText did.
+type Observed struct {
+	Kind  string
+	Addr  netip.Addr
+	Names []string
+	Err   error
+}
+
+// KindOf classifies an UnmarshalText error by identity / type only.
+func KindOf(err error) string {
+	var ae *netutil.AddrError
+	switch {
+	case err == nil:
+		return "Accept"
+	case errors.Is(err, hostsfile.ErrEmptyLine):
+		return "Empty"
+	case errors.Is(err, hostsfile.ErrNoHosts):
+		return "NoHosts"
+	case errors.As(err, &ae):
+		return "NameErr"
+	default:
+		return "AddrErr"
+	}
+}
+
+// CheckLine runs UnmarshalText on line and compares with e.  It returns ""
+// or a description of the first disagreement.  The specification's contract
+// violations (the reference disagreeing with the expectation) come back as
+// err.
+func CheckLine(line []byte, e Expect, dirty bool) (what string, err error) {
+	rec := &hostsfile.Record{}
+	if dirty {
+		rec.Addr = netip.MustParseAddr("9.9.9.9")
+		rec.Names = []string{"stale.example", "stale2.example"}
+	}
+	data := bytes.Clone(line)
+	var uerr error
+	if pv, p := vh.Try(func() { uerr = rec.UnmarshalText(data) }); p {
+		return fmt.Sprintf("UnmarshalText panicked: %v", pv), nil
+	}
+	// The text must have been copied (encoding.TextUnmarshaler).
+	for i := range data {
+		data[i] = 'Z'
+	}
+	if what, err = CheckErr(uerr, e); what != "" || err != nil {
+		return what, err
+	}
+	if what, err = CheckRec(rec, e, !dirty || e.Kind == "Accept"); what != "" || err != nil {
+		return what, err
+	}
+	if e.Kind == "Accept" {
+		return RoundTrip(rec), nil
+	}
+	return "", nil
+}
+
+// CheckErr compares the error of UnmarshalText (possibly wrapped, e.g. in a
+// *LineError) with the expectation: the outcome kind by errors.Is / errors.As,
+// netip.ParseAddr's own error for a bad address, the first bad name for a
+// *netutil.AddrError.
+func CheckErr(uerr error, e Expect) (what string, err error) {
+	got := KindOf(uerr)
+	if got != e.Kind {
+		return fmt.Sprintf("outcome %s (err=%v), the specification requires %s", got, uerr, e.Kind), nil
+	}
+	switch e.Kind {
+	case "AddrErr":
+		_, rerr := refAddr(e.Addr)
+		if rerr == nil {
+			return "", fmt.Errorf("spec says AddrErr but netip.ParseAddr accepts %q", e.Addr)
+		}
+		if !errChainHas(uerr, rerr) {
+			return fmt.Sprintf("address error %q is not netip.ParseAddr's error %q", uerr, rerr), nil
+		}
+	case "NameErr":
+		rn := refName(e.Bad)
+		if rn == nil {
+			return "", fmt.Errorf("spec says NameErr but ValidateDomainName accepts %q", e.Bad)
+		}
+		var ae, rae *netutil.AddrError
+		errors.As(uerr, &ae)
+		if !errors.As(rn, &rae) {
+			return "", fmt.Errorf("reference error for %q is not an *AddrError", e.Bad)
+		}
+		if ae.Addr != rae.Addr {
+			return fmt.Sprintf("*AddrError is about %q, the first bad name is %q", ae.Addr, rae.Addr), nil
+		}
+	}
+	return "", nil
+}
+
+// CheckRec compares rec.Addr (when withAddr) and rec.Names with the
+// expectation of an Accept / NameErr outcome.
+func CheckRec(rec *hostsfile.Record, e Expect, withAddr bool) (what string, err error) {
+	if e.Kind != "Accept" && e.Kind != "NameErr" {
+		return "", nil
+	}
+	want, rerr := refAddr(e.Addr)
+	if rerr != nil {
+		return "", fmt.Errorf("spec says the address is valid but netip.ParseAddr rejects %q", e.Addr)
+	}
+	if withAddr && rec.Addr != want {
+		return fmt.Sprintf("rec.Addr = %v, want %v", rec.Addr, want), nil
+	}
+	if !slices.Equal(rec.Names, e.Names) {
+		return fmt.Sprintf("rec.Names = %q, want %q", rec.Names, e.Names), nil
+	}
+	if e.Kind == "Accept" {
+		for _, n := range e.Names {
+			if refName(n) != nil {
+				return "", fmt.Errorf("spec says Accept but ValidateDomainName rejects %q", n)
+			}
+		}
+	}
+	return "", nil
+}
+
+// RoundTrip checks MarshalText -> UnmarshalText equality for an accepted rec.
+func RoundTrip(rec *hostsfile.Record) (what string) {
+	var text []byte
+	var merr error
+	if pv, p := vh.Try(func() { text, merr = rec.MarshalText() }); p {
+		return fmt.Sprintf("MarshalText panicked: %v", pv)
+	}
+	if merr != nil {
+		return fmt.Sprintf("MarshalText error: %v", merr)
+	}
+	back := &hostsfile.Record{}
+	var uerr error
+	if pv, p := vh.Try(func() { uerr = back.UnmarshalText(bytes.Clone(text)) }); p {
+		return fmt.Sprintf("UnmarshalText(MarshalText) panicked: %v", pv)
+	}
+	if uerr != nil {
+		return fmt.Sprintf("MarshalText gives %q which re-parses with error %v", text, uerr)
+	}
+	if back.Addr != rec.Addr || !slices.Equal(back.Names, rec.Names) {
+		return fmt.Sprintf("MarshalText gives %q which re-parses to {%v %q}, want {%v %q}", text, back.Addr, back.Names, rec.Addr, rec.Names)
+	}
+	return ""
+}
+
+// ------------------------------------------------------------ parallel replay
+
+// Hash64 is FNV-1a, used to derive per-vector random streams.
+func Hash64(b []byte) uint64 {
+	h := uint64(14695981039346656037)
+	for _, c := range b {
+		h ^= uint64(c)
+		h *= 1099511628211
+	}
+	return h
+}
+
+// RandFor returns the deterministic generator of a vector and variant.
+func RandFor(raw []byte, variant uint64) *rand.Rand {
+	return rand.New(rand.NewPCG(vh.Seed()^0x9e3779b97f4a7c15*variant, Hash64(raw)))
+}
+
+// ParallelVectors runs fn over all vectors of path with a worker pool; fn
+// must be safe for concurrent use.  The first error stops the run.
+func ParallelVectors(path string, fn func(raw []byte) error) (n int, dd *vh.Dedup, err error) {
+	nw := runtime.NumCPU()
+	type batch [][]byte
+	ch := make(chan batch, 2*nw)
+	var wg sync.WaitGroup
+	var mu sync.Mutex
+	var ferr error
+	for w := 0; w < nw; w++ {
+		wg.Add(1)
+		go func() {
+			defer wg.Done()
+			for b := range ch {
+				for _, raw := range b {
+					mu.Lock()
+					stop := ferr != nil
+					mu.Unlock()
+					if stop {
+						break
+					}
+					if e := fn(raw); e != nil {
+						mu.Lock()
+						if ferr == nil {
+							ferr = e
+						}
+						mu.Unlock()
+					}
+				}
+			}
+		}()
+	}
+	dd = vh.NewDedup()
+	cur := make(batch, 0, 256)
+	err = vh.ForEachVector(path, func(_ int, raw []byte) error {
+		n++
+		dd.Add(raw)
+		cur = append(cur, bytes.Clone(raw))
+		if len(cur) == cap(cur) {
+			ch <- cur
+			cur = make(batch, 0, 256)
+		}
+		return nil
+	})
+	ch <- cur
+	close(ch)
+	wg.Wait()
+	if err == nil {
+		err = ferr
+	}
+	return n, dd, err
+}
+
+// ------------------------------------------------------------------ G
+
+const nConcretisations = 3
+
+func keyOf(line []byte) string { return "UnmarshalText(" + strconv.QuoteToASCII(string(line)) + ")" }
+
+func replayLines(args []string) error {
+	if len(args) != 2 {
+		return fmt.Errorf("usage: replay-lines <vectors> <result>")
+	}
+	if _, err := GetTables(); err != nil {
+		return err
+	}
+	res, err := vh.NewResult(args[1])
+	if err != nil {
+		return err
+	}
+	var mu sync.Mutex
+	evals, accepted, sampled := 0, 0, 0
+	conc := vh.NewDedup()
+	n, dd, err := ParallelVectors(args[0], func(raw []byte) error {
+		var v lineVec
+		if err := json.Unmarshal(raw, &v); err != nil {
+			return err
+		}
+		for variant := 0; variant < nConcretisations; variant++ {
+			rng := RandFor(raw, uint64(variant))
+			c, err := Concretise(rng, v.L, variant)
+			if err != nil {
+				return err
+			}
+			e, err := MakeExpect(v.Outcome, c)
+			if err != nil {
+				return err
+			}
+			for _, dirty := range []bool{false, true} {
+				what, err := CheckLine(c.Line, e, dirty)
+				if err != nil {
+					return fmt.Errorf("line %q: %w", c.Line, err)
+				}
+				if what != "" {
+					res.Mismatch(keyOf(c.Line), what, map[string]any{"tokens": v.L, "spec": v.Outcome, "line": string(c.Line), "dirty_record": dirty})
+				}
+			}
+			mu.Lock()
+			evals += 2
+			conc.Add(c.Line)
+			if e.Kind == "Accept" {
+				accepted++
+			}
+			if sampled < 4 && len(v.L) >= 4 && variant == 1 && Hash64(raw)%1009 < 8 && (e.Kind == "Accept" || e.Kind == "NameErr") {
+				sampled++
+				res.Sample(map[string]any{"tokens": v.L, "line": strconv.QuoteToASCII(string(c.Line)), "spec": v.Outcome})
+			}
+			mu.Unlock()
+			if len(v.L) == 0 {
+				break
+			}
+		}
+		return nil
+	})
+	if err != nil {
+		return err
+	}
+	return res.Close(map[string]any{"vectors": n, "replayed": evals, "distinct_nontrivial": dd.N() - 1,
+		"distinct_concrete_lines": conc.N(), "accepted_roundtrips": accepted})
+}
+
+// replayOne re-executes one concrete line (for --replay): prints what the
+// abstraction, the reference functions and the code say.
+func replayOne(args []string) error {
+	if len(args) != 1 {
+		return fmt.Errorf("usage: replay-one <go-quoted line>")
+	}
+	s, err := strconv.Unquote(args[0])
+	if err != nil {
+		return err
+	}
+	a := Abstract([]byte(s))
+	rec := &hostsfile.Record{}
+	uerr := rec.UnmarshalText([]byte(s))
+	fmt.Printf("line   %q\ntokens %v\nfields %q\ncode   kind=%s addr=%v names=%q err=%v\n", s, a.Tokens, a.Fields, KindOf(uerr), rec.Addr, rec.Names, uerr)
+	return nil
+}
+
+// ------------------------------------------------------------------ T
+
+// RandomLine produces one random byte line (no '\n').
+func RandomLine(rng *rand.Rand, tb *Tables, maxFields int) []byte {
+	var b []byte
+	sep := func() {
+		for k := 1 + rng.IntN(3); k > 0; k-- {
+			if rng.IntN(3) == 0 {
+				b = append(b, '\t')
+			} else {
+				b = append(b, ' ')
+			}
+		}
+	}
+	alphabet := []string{"a", "b", "z", "0", "1", "9", ".", ".", ":", "%", "-", "_", "\r", "\xff", "\xc3", "я", "ü", "例", "A", "!", "/", "[", "\x00", "x", "com", "::"}
+	randomField := func() string {
+		var f []byte
+		for k := 1 + rng.IntN(8); k > 0; k-- {
+			f = append(f, alphabet[rng.IntN(len(alphabet))]...)
+		}
+		return string(f)
+	}
+	pick := func(toks ...string) string {
+		l := tb.m[toks[rng.IntN(len(toks))]]
+		return l[rng.IntN(len(l))]
+	}
+	mutate := func(s string) string {
+		if s == "" {
+			return s
+		}
+		r := []byte(s)
+		switch rng.IntN(6) {
+		case 0:
+			r = append(r, '\r')
+		case 1:
+			r = append([]byte{'\r'}, r...)
+		case 2:
+			i := rng.IntN(len(r))
+			r[i] = alphabet[rng.IntN(len(alphabet))][0]
+		case 3:
+			i := rng.IntN(len(r) + 1)
+			r = slices.Insert(r, i, alphabet[rng.IntN(len(alphabet))][0])
+		case 4:
+			i := rng.IntN(len(r))
+			r = slices.Delete(r, i, i+1)
+		case 5:
+			r = []byte(strings.ToUpper(string(r)))
+		}
+		return string(r)
+	}
+	field := func(first bool) string {
+		r := rng.IntN(20)
+		if first {
+			switch {
+			case r < 13:
+				return pick("A4", "A6", "A6z")
+			case r < 15:
+				return pick("Abad", "N")
+			}
+		} else {
+			switch {
+			case r < 11:
+				return pick("N", "N", "Nidn")
+			case r < 13:
+				return pick("Nbad", "Abad", "A4", "A6z", "CMT", "CR")
+			}
+		}
+		switch rng.IntN(8) {
+		case 0, 1, 2, 3:
+			return mutate(pick("N", "Nidn", "A4", "A6", "A6z", "Nbad"))
+		case 4:
+			// labels around the 63-byte limit
+			return rep(alphabet[rng.IntN(3)], 60+rng.IntN(8)) + "." + pick("N")
+		case 5:
+			return pick("N") + "." + pick("N", "Nidn", "Nbad")
+		default:
+			return randomField()
+		}
+	}
+	if rng.IntN(4) == 0 {
+		sep()
+	}
+	nf := 0
+	switch r := rng.IntN(20); {
+	case r < 2:
+		nf = 0
+	case r < 4:
+		nf = 1
+	default:
+		nf = 2 + rng.IntN(maxFields)
+	}
+	for k := 0; k < nf; k++ {
+		if k > 0 {
+			sep()
+		}
+		b = append(b, field(k == 0)...)
+		if rng.IntN(40) == 0 {
+			// a comment glued to a field
+			b = append(b, '#')
+			b = append(b, randomField()...)
+		}
+	}
+	if rng.IntN(4) == 0 {
+		sep()
+	}
+	if rng.IntN(4) == 0 {
+		b = append(b, '#')
+		if rng.IntN(4) > 0 {
+			b = append(b, commentTexts[rng.IntN(len(commentTexts))]...)
+			if rng.IntN(2) == 0 {
+				b = append(b, ' ')
+				b = append(b, field(rng.IntN(2) == 0)...)
+			}
+		}
+	}
+	if rng.IntN(12) == 0 {
+		b = append(b, '\r')
+	}
+	// '\n' never appears: a line is what is between two newlines.
+	return bytes.ReplaceAll(b, []byte("\n"), []byte("."))
+}
+
+// ObserveLine runs UnmarshalText and abstracts the result relative to the
+// fields the abstractor found: n = number of names retained when they are,
+// in order, the texts of fields 2..n+1 (else -1); flags say whether the
+// address, the error and the round trip are as the property requires.
+type LineObs struct {
+	Kind    string `json:"kind"`
+	N       int    `json:"n"`
+	AddrOK  bool   `json:"addr_ok"`
+	ErrOK   bool   `json:"err_ok"`
+	RoundOK bool   `json:"round_ok"`
+	Note    string `json:"note"`
+}
+
+func ObserveLine(line []byte, a Abstracted) (o LineObs) {
+	rec := &hostsfile.Record{}
+	data := bytes.Clone(line)
+	var uerr error
+	if pv, p := vh.Try(func() { uerr = rec.UnmarshalText(data) }); p {
+		return LineObs{Kind: "Panic", Note: fmt.Sprint(pv)}
+	}
+	for i := range data {
+		data[i] = 'Z'
+	}
+	o.Kind = KindOf(uerr)
+	o.AddrOK, o.ErrOK, o.RoundOK = true, true, true
+	switch o.Kind {
+	case "Empty", "NoHosts":
+		return o
+	case "AddrErr":
+		if len(a.Fields) > 0 {
+			_, rerr := refAddr(a.Fields[0])
+			o.ErrOK = rerr != nil && errChainHas(uerr, rerr)
+			if !o.ErrOK {
+				o.Note = fmt.Sprintf("error %q, reference %v", uerr, rerr)
+			}
+		}
+		return o
+	}
+	o.N = len(rec.Names)
+	if len(rec.Names)+1 > len(a.Fields) || !slices.Equal(rec.Names, a.Fields[1:1+len(rec.Names)]) {
+		o.N = -1
+		o.Note = fmt.Sprintf("names %q", rec.Names)
+		return o
+	}
+	if want, rerr := refAddr(a.Fields[0]); rerr != nil || want != rec.Addr {
+		o.AddrOK = false
+		o.Note = fmt.Sprintf("addr %v, reference %v %v", rec.Addr, want, rerr)
+	}
+	if o.Kind == "NameErr" {
+		var ae *netutil.AddrError
+		errors.As(uerr, &ae)
+		if o.N+1 >= len(a.Fields) || ae.Addr != a.Fields[o.N+1] {
+			o.ErrOK = false
+			o.Note = fmt.Sprintf("*AddrError about %q", ae.Addr)
+		}
+		return o
+	}
+	if w := RoundTrip(rec); w != "" {
+		o.RoundOK = false
+		o.Note = w
+	}
+	return o
+}
+
+func recordLines(args []string) error {
+	if len(args) != 3 {
+		return fmt.Errorf("usage: record-lines <trace-out> <result> <lines>")
+	}
+	nl, err := strconv.Atoi(args[2])
+	if err != nil {
+		return err
+	}
+	tb, err := GetTables()
+	if err != nil {
+		return err
+	}
+	tr, err := vh.NewTrace(args[0])
+	if err != nil {
+		return err
+	}
+	res, err := vh.NewResult(args[1])
+	if err != nil {
+		return err
+	}
+	type ev struct {
+		I    int      `json:"i"`
+		Raw  string   `json:"raw"`
+		Line []string `json:"line"`
+		LineObs
+	}
+	rng := vh.Rand(7)
+	dd := vh.NewDedup()
+	kinds := map[string]int{}
+	for i := 0; i < nl; i++ {
+		line := RandomLine(rng, tb, 5)
+		a := Abstract(line)
+		if len(a.Tokens) > 40 {
+			continue
+		}
+		o := ObserveLine(line, a)
+		kinds[o.Kind]++
+		dd.Add(line)
+		raw := strconv.QuoteToASCII(string(line))
+		if len(raw) > 300 {
+			raw = raw[:300] + "..."
+		}
+		tr.Emit(ev{I: i, Raw: raw, Line: a.Tokens, LineObs: o})
+		if i%1009 == 0 {
+			res.Sample(map[string]any{"line": raw, "tokens": a.Tokens, "observed": o})
+		}
+	}
+	if err := tr.Close(); err != nil {
+		return err
+	}
+	sum := map[string]any{"events": tr.N, "distinct_lines": dd.N()}
+	for k, v := range kinds {
+		sum["kind_"+k] = v
+	}
+	return res.Close(sum)
+}
